@@ -151,7 +151,7 @@ def handle_task(task: dict, repo: str) -> dict:
     if t == "ping":
         import fortls
 
-        return {"ok": True, "hashseed": os.environ.get("PYTHONHASHSEED"),
+        return {"ok": True, "hashseed": os.environ.get("PYTHONHASHSEED"), "optimize": sys.flags.optimize,
                 "fortls": os.path.dirname(fortls.__file__)}
     if t == "run":
         sched = task.get("sched")
